@@ -27,6 +27,7 @@ type Obligation struct {
 	Src    string
 	Where  string
 	Watch  map[string]*Term // terms whose model values are reported on failure
+	Cover  bool             // vacuity guard: must NOT be unsat
 	Result *SolveResult
 }
 
@@ -68,6 +69,8 @@ type Exec struct {
 	seqOf          map[*Term]*seqInfo
 	freshRefs      map[*Term]bool
 	skipHeadOnce   *ssa.BasicBlock
+	writtenOuter   map[string]*Sort // writes to objects not fresh w.r.t. the enclosing function
+	parentFresh    map[*Term]bool
 }
 
 type unsupported struct{ msg string }
@@ -191,7 +194,10 @@ func (ex *Exec) newEntryState(fn *ssa.Function) (*State, []*Val) {
 func (ex *Exec) assumeWellTyped(st *State, v *Val, t types.Type) {
 	switch v.K {
 	case VScalar:
-		if v.T.Sort.Kind == SKInt && v.T.Sort != SInt && v.T.Sort != STime {
+		if v.T.Sort == SErr {
+			// errors may be sentinel variables, which live below the allocation range
+			st.assume(Lt(v.T, coerce(st.alloc, v.T.Sort)))
+		} else if v.T.Sort.Kind == SKInt && v.T.Sort != SInt && v.T.Sort != STime {
 			st.assume(And(Ge(v.T, IntLit(0, v.T.Sort)), Lt(v.T, coerce(st.alloc, v.T.Sort))))
 		}
 	case VSlice:
@@ -314,8 +320,14 @@ func isBackEdge(pred, b *ssa.BasicBlock) bool { return pred != nil && b.Dominate
 
 // loopWrites discovers which heap arrays the loop with head h can write, by
 // executing its body once in collect mode from (a clone of) the current state.
-func (ex *Exec) loopWrites(st *State, h *ssa.BasicBlock) map[string]*Sort {
-	sub := &Exec{eng: ex.eng, fn: ex.fn, fc: ex.fc, collect: true, written: map[string]*Sort{}, pre: ex.pre, inputs: ex.inputs, loopEntry: map[*ssa.BasicBlock]*State{}, cloAt: ex.cloAt, callSeq: map[string]int{}, boxes: ex.boxes, seqOf: ex.seqOf, freshRefs: map[*Term]bool{}}
+func (ex *Exec) loopWrites(st *State, h *ssa.BasicBlock) (map[string]*Sort, map[string]*Sort) {
+	sub := &Exec{eng: ex.eng, fn: ex.fn, fc: ex.fc, collect: true, written: map[string]*Sort{}, pre: ex.pre, inputs: ex.inputs, loopEntry: map[*ssa.BasicBlock]*State{}, cloAt: ex.cloAt, callSeq: map[string]int{}, boxes: ex.boxes, seqOf: ex.seqOf, freshRefs: map[*Term]bool{}, writtenOuter: map[string]*Sort{}, parentFresh: map[*Term]bool{}}
+	for r := range ex.freshRefs {
+		sub.parentFresh[r] = true
+	}
+	for r := range ex.parentFresh {
+		sub.parentFresh[r] = true
+	}
 	s := st.clone()
 	fr := s.top()
 	for _, in := range h.Instrs {
@@ -335,7 +347,7 @@ func (ex *Exec) loopWrites(st *State, h *ssa.BasicBlock) map[string]*Sort {
 		}()
 		sub.execLoopBody(s, h)
 	}()
-	return sub.written
+	return sub.written, sub.writtenOuter
 }
 
 // execLoopBody runs from the head's first non-phi instruction and stops at
@@ -436,7 +448,7 @@ func (ex *Exec) enterLoop(st *State, h *ssa.BasicBlock, pred *ssa.BasicBlock) bo
 	fr.names["$entry"] = namedVal{v: &Val{K: VScalar, T: TTrue}}
 	ex.loopEntry[h] = entry
 	// havoc what the loop may change
-	writes := ex.loopWrites(st, h)
+	writes, outer := ex.loopWrites(st, h)
 	names := make([]string, 0, len(writes))
 	for n := range writes {
 		names = append(names, n)
@@ -446,7 +458,12 @@ func (ex *Exec) enterLoop(st *State, h *ssa.BasicBlock, pred *ssa.BasicBlock) bo
 		fmt.Fprintf(os.Stderr, "loop %d of %s writes: %v\n", ord, funcShort(fr.fn), names)
 	}
 	for _, n := range names {
-		ex.havocArr(st, n)
+		if _, isOuter := outer[n]; isOuter {
+			ex.havocArr(st, n)
+		} else if srt, ok := arrSorts[n]; ok {
+			// only objects allocated by this function are written: not part of its visible write set
+			st.heap[n] = Fresh(n, srt)
+		}
 	}
 	hv := map[*ssa.Phi]*Val{}
 	for phi := range phiVals {
